@@ -175,6 +175,27 @@ def run(ctx, rep):
                         detail = "file,line,col order=%s stored as UnaryUnwrap.span=%s" % (bool(order), stored)
     rep.ob("C12.get", "the parser builds `file:line:col` of the `get` token and stores it in the node", "ok" if okpos else "violated", detail, pe.span, fn=pe.path,
            key="C12.get|parser|position")
+    # ... of the `get` token itself: in the prefix callback of the Pratt parser the operator token is the parameter of type Pair; the other
+    # parameter (a Result holding the operand and *its* pair) gives the position of the operand, which is a different column
+    tok_ok, tok_detail, judged = True, "", 0
+    for g in [pe] + F.closures_of(pe):
+        if not any("agg" in rv and rv["agg"].get("v") == "UnaryUnwrap" and rv["agg"].get("adt", "").endswith("math_expr::Expr") for _, _, _, rv, _ in g.assigns()):
+            continue
+        for x in g.calls():
+            if not x.matches(("pest::iterators::pair::Pair::line_col",)):
+                continue
+            judged += 1
+            l = op_local(x.args[0])
+            tps = rules.trace_paths(g, l, transparent=rules.TRANSPARENT | {"core::option::Option::as_ref", "core::option::Option::unwrap", "core::option::Option::expect",
+                                                                           rules.TRY_BRANCH}) if l is not None else set()
+            origins = sorted({o for o, _ in tps}, key=str)
+            good = bool(origins) and all(o[0] == "arg" and g.locals[o[1]].lstrip("&").startswith("pest::iterators::pair::Pair<") for o in origins)
+            if not good:
+                tok_ok = False
+                tok_detail = ("the position comes from %s: the pair of the operand, not the `get` token (`print    get x` reports the column of x)"
+                              % [("parameter %d: %s" % (o[1], g.locals[o[1]][:60])) if o[0] == "arg" else str(o) for o in origins])
+    rep.ob("C12.get", "the position stored for a `get` is that of the `get` token (the operator parameter of the prefix callback)",
+           "ok" if (tok_ok and judged) else ("undecided" if not judged else "violated"), tok_detail, pe.span, fn=pe.path, key="C12.get|parser|token")
     cd = F.fn("compiler::ast::math_expr::compile_depth")
     ea = F.adt("compiler::ast::math_expr::Expr")
     en = [v["name"] for v in ea["variants"]]
